@@ -29,9 +29,9 @@ type Obl struct {
 	Key        string `json:"key"` // Cxx/<rule>/<function>/<construct>; never a line number
 	Status     Status `json:"status"`
 	Pos        string `json:"pos,omitempty"`
-	Fact       string `json:"fact,omitempty"`   // witness fact / reason
-	Nontrivial bool   `json:"-"`                // needed a dataflow / dominance / value-flow fact
-	Known      string `json:"known,omitempty"`  // text of the matched known finding
+	Fact       string `json:"fact,omitempty"`  // witness fact / reason
+	Nontrivial bool   `json:"-"`               // needed a dataflow / dominance / value-flow fact
+	Known      string `json:"known,omitempty"` // text of the matched known finding
 }
 
 // Run collects obligations for one property.
